@@ -19,9 +19,10 @@ from loader import load
 import models
 import c09
 from c09 import coroutine_paths, result_of, awaited, ready_val, is_sub
+from audit import WRAPPERS
 
-CRATES = ['identity_resolver']
-SRC = ['identity_did', 'identity_document']
+CRATES = ['identity_resolver', 'identity_document', 'identity_verification', 'identity_did']
+SRC = []
 
 
 def R(tag):
@@ -251,9 +252,107 @@ def run(ctx, prog):
             return None
         A.require('Resolver::attach_did_jwk_handler[%s]/registered-under-the-jwk-method' % kind, ps, r_jwk, replay=R('[jwk]'))
 
+    # ------------------------------------------------------------------------------------------------------- did:jwk expansion
+    # handler -> CoreDocument::expand_did_jwk(did) -> VerificationMethod::try_from(did) -> new_from_jwk(did, did.jwk(), "0"): the key in the
+    # method is what DIDJwk::jwk() decodes from the method-specific id, untouched on the way
+    for f in prog.find(r'resolver::<impl at [^>]*>::attach_did_jwk_handler::\{closure#0\}::\{closure#0\}$'):
+        ps, _ = coroutine_paths(ctx, prog, f)
+
+        def r_h(p):
+            if p.kind != 'return':
+                return 'panic reachable: ' + p.msg
+            cs = p.find_calls(r'CoreDocument::expand_did_jwk$')
+            if len(cs) != 1 or field_path(strip(cs[0].args[0])) is None or field_path(strip(cs[0].args[0]))[0] != 'co':
+                return 'the did:jwk handler does not expand the DID it was given'
+            return None if p.term(result_of(p)) == cs[0].ret else 'the did:jwk handler does not return the expansion as it is'
+        A.require('did:jwk handler[%s]/expands-the-did-it-was-given' % ('SingleThreaded' if 'SingleThreaded' in f.name or ':251:' in f.name else 'SendSync'), ps, r_h, replay=R('[jwk]'))
+
+    f = prog.one(r'core_document::<impl at [^>]*>::expand_did_jwk$')
+    ps, _ = A.paths(f)
+
+    def r_exp(p):
+        if p.kind != 'return':
+            return 'panic reachable: ' + p.msg
+        tf = p.find_calls(r'VerificationMethod as TryFrom<.*DIDJwk>>::try_from$')
+        if len(tf) != 1 or not mentions(tf[0].args[0], r'^did_jwk$') or [a for a in apps(tf[0].args[0], r'.') if not WRAPPERS.search(a[1])]:
+            return 'the method is not built from the DID being expanded'
+        if p.took(tf[0].ret, 'Err'):
+            return None if p.is_err() else 'a key that cannot become a method does not fail the expansion'
+        if not p.is_ok() and not apps(p.term(), r'DocumentBuilder::build$'):
+            return 'unexpected result'
+        m = ('field', tf[0].ret, 0, 'Ok')
+        vm = p.find_calls(r'DocumentBuilder::verification_method$')
+        if len(vm) != 1 or strip(vm[0].args[1]) != m:
+            return 'the document does not carry exactly one embedded method, the one built from the DID'
+        idc = p.find_calls(r'DocumentBuilder::id$')
+        if len(idc) != 1 or not mentions(idc[0].args[1], r'^did_jwk$') or is_sub(idc[0].args[1], tf[0].ret):
+            return 'the document id is not the DID being expanded'
+        mid = [c for c in p.find_calls(r'VerificationMethod::id$') if is_sub(c.args[0], m)]
+        for rel in ('assertion_method', 'authentication', 'capability_invocation', 'capability_delegation'):
+            rc = p.find_calls(r'DocumentBuilder::%s$' % rel)
+            if len(rc) != 1 or not mid or not is_sub(rc[0].args[1], mid[0].ret):
+                return '%s does not reference the one method' % rel
+        others = [c for c in p.calls if re.search(r'DocumentBuilder::(key_agreement|service|controller|also_known_as|verification_method|property|properties)$', c.name)]
+        if len(others) != 1:
+            return 'the document carries more than the one method and its references'
+        b = p.find_calls(r'DocumentBuilder::build$')
+        if len(b) != 1 or strip(p.term()) != b[0].ret:
+            return 'the document returned is not the one built'
+        return None
+    A.require('CoreDocument::expand_did_jwk/one-method-built-from-the-did-and-referenced', ps, r_exp, replay=R('[jwk]'))
+
+    f = prog.one(r'verification_method::method::<impl at [^>]*>::try_from$|method::<impl at [^>]*>::try_from$', sig=r'^(\w+::)*DIDJwk')
+    ps, _ = A.paths(f)
+
+    def r_vm(p):
+        if p.kind != 'return':
+            return 'panic reachable: ' + p.msg
+        nj = p.find_calls(r'VerificationMethod::new_from_jwk$')
+        jk = p.find_calls(r'DIDJwk::jwk$')
+        if len(nj) != 1 or len(jk) != 1 or not mentions(jk[0].args[0], r'^did$'):
+            return 'the method is not built by new_from_jwk from the key the DID encodes'
+        if strip(nj[0].args[1]) != jk[0].ret:
+            return 'the key handed to the method is not exactly the key the DID encodes (got %s)' % term_str(nj[0].args[1])[:100]
+        if strip(nj[0].args[0]) != ('leaf', 'did'):
+            return 'the method is not built for the DID given'
+        return None if strip(p.term()) == nj[0].ret else 'the method returned is not the one built'
+    A.require('VerificationMethod::try_from<DIDJwk>/carries-exactly-the-key-the-did-encodes', ps, r_vm, replay=R('[jwk]'))
+
+    f = prog.one(r'did_jwk::<impl at [^>]*>::jwk$')
+    ps, _ = A.paths(f)
+
+    def r_jwk_acc(p):
+        if p.kind != 'return':
+            return None      # the expect is the type's invariant (TryFrom<CoreDID> decoded the same text); C05 territory
+        dc = p.find_calls(r'decode_b64_json$')
+        if len(dc) != 1:
+            return 'not one decoding'
+        a = dc[0].args[0]
+        while isinstance(a, tuple) and a[0] in ('ref', 'deref'):
+            a = a[1]
+        if not (app_name(a) and re.search(r'DID>::method_id$|::method_id$', app_name(a)) and mentions(a[2][0], r'^self$')):
+            return 'the key is not decoded from the whole method-specific id of this DID'
+        return None if strip(p.term()) == ('field', dc[0].ret, 0, 'Ok') else 'the key returned is not the decoded one'
+    A.require('DIDJwk::jwk/decodes-the-whole-method-specific-id', ps, r_jwk_acc, replay=R('[jwk]'))
+
     # ----------------------------------------------------------------------------------------- resolve_multiple: per-DID future
-    f = prog.one(r'resolver::<impl at [^>]*>::resolve_multiple::\{closure#0\}::\{closure#0\}$')
-    ps, _ = coroutine_paths(ctx, prog, f)
+    def candidate(name, why, rep):
+        # the shape the requirement reads is gone (refactored code): a candidate, decided by the native battery - never a pass
+        from replay import run_replay
+        res = run_replay(rep)
+        ctx.add(Ob(name, 'M', VIOLATED if res.get('reproduced') else INCONCLUSIVE,
+                   detail='%s | native: %s' % (why, res.get('detail', '')[:300]), replay=rep, cex={'path': why}))
+
+    try:
+        f = prog.one(r'resolver::<impl at [^>]*>::resolve_multiple::\{closure#0\}::\{closure#0\}$')
+        ps, _ = coroutine_paths(ctx, prog, f)
+        if not ps:
+            raise Refuse('no ready path')
+    except Refuse as e:
+        ps = None
+        candidate('Resolver::resolve_multiple/each-entry-pairs-the-did-with-its-own-document',
+                  'resolve_multiple has no per-DID future that pairs the DID with its document before completion (%s): pairing after '
+                  'collection depends on the completion order' % str(e)[:120], R('[multi]'))
 
     def r_each(p):
         if p.kind != 'return':
@@ -279,7 +378,8 @@ def run(ctx, prog):
             ok = isinstance(res, VAgg) and res.variant == 'Err' and strip(t[3][0]) == ('field', out, 0, 'Err')
             return None if ok else 'a failed resolution is not passed on as it is'
         return 'resolution outcome not examined'
-    A.require('Resolver::resolve_multiple/each-entry-pairs-the-did-with-its-own-document', ps, r_each, replay=R('[multi]'))
+    if ps is not None:
+        A.require('Resolver::resolve_multiple/each-entry-pairs-the-did-with-its-own-document', ps, r_each, replay=R('[multi]'))
 
     # --------------------------------------------------------------------------------------- resolve_multiple: the collection
     f = prog.one(r'resolver::<impl at [^>]*>::resolve_multiple::\{closure#0\}$')
@@ -348,7 +448,7 @@ def run(ctx, prog):
 
 
 def main(ctx):
-    prog, info = load(CRATES, src_only=SRC)
+    prog, info = load(CRATES)
     ctx.extra['mir'] = info
     ctx.bounds.append('every ready-path of the async bodies of Resolver::resolve, the per-DID future of resolve_multiple and the handler future of '
                       'Command::new (every awaited future Ready on first poll, results unconstrained); resolve_multiple\'s loop unrolled 3 times '
